@@ -1,3 +1,4 @@
 import MudExec.Proto
 import MudExec.OpsA
 import MudExec.OpsB
+import MudExec.OpsC
